@@ -164,7 +164,14 @@ func makeMethodArshaler(fncs *arshaler, t reflect.Type) *arshaler {
 				return prevMarshal(enc, va, mo)
 			}
 			appender, _ := reflect.TypeAssert[encoding.TextAppender](va.Addr())
-			if err := export.Encoder(enc).AppendRaw('"', false, appender.AppendText); err != nil {
+			appendText := func(b []byte) ([]byte, error) {
+				// The method is shown the unused capacity only, and whatever
+				// it returns is appended: the result need not be an extension
+				// of the slice that was passed in.
+				b2, err := appender.AppendText(b[len(b):])
+				return append(b, b2...), err
+			}
+			if err := export.Encoder(enc).AppendRaw('"', false, appendText); err != nil {
 				err = wrapErrUnsupported(err, "AppendText method")
 				if mo.Flags.Get(jsonflags.ReportErrorsWithLegacySemantics) {
 					return internal.NewMarshalerError(va.Addr().Interface(), err, "AppendText") // unlike unmarshal, always wrapped
